@@ -296,10 +296,14 @@ def run_memcheck(arch, lines, tag, batch=1, exe=None, timeout=900):
 
 
 def lib_frame(err):
+    """innermost library frame that is not an inlined compiler intrinsic (_mm_insert_epi8 (smmintrin.h:401) ...)"""
+    first = None
     for fr in err["stack"]:
         if fr[3].startswith("libIPSec_MB"):
-            return fr
-    return None
+            first = first or fr
+            if not re.search(r"intrin\.h$", fr[1]):
+                return fr
+    return first
 
 
 def entry_frame(err):
